@@ -602,6 +602,9 @@ func (pe *preparedExec) run(cmd, meta *sx.Sexp) (*sx.Sexp, string) {
 	data := decodeVal(cmd.Xs[7])
 	probeLog = nil
 	var buf bytes.Buffer
+	if len(cmd.Xs[6].Xs) == 0 {
+		vars = nil // no variables: the caller passes a nil VarMap
+	}
 	xerr := executeContained(t, &buf, vars, data)
 	if ce, ok := xerr.(crashErr); ok {
 		if ce.callee {
